@@ -418,5 +418,9 @@ class ReconnectLogic(zeroconf.RecordUpdateListener):
             # attempt again.
             #
             self._connect_from_zeroconf()
-            self._accept_zeroconf_records = False
+            if self._connect_task and not self._connect_task.done():
+                # Only ignore further records while the attempt is in progress.
+                # The connect task starts eagerly, if it already failed we
+                # are waiting again and must keep accepting records.
+                self._accept_zeroconf_records = False
             return
